@@ -183,6 +183,25 @@ class DefGen:
                     a, b = (b, a) if b[0] == "v" else (a, b)
                 self.kinds.append("int" if op in ("_add", "_sub", "_mul", "_floordiv", "_mod") else "bool")
                 return dict(k="call", fn=op, args=[a, b], kwargs=[], flag=None, unpack=None)
+        if r < 0.53:
+            # + and * on sequences (tuples / lists): not commutative, so `constant + result` (the reflected
+            # operator) and `result + constant` differ
+            tvars = [i for i, k in enumerate(self.kinds) if k in ("pair", "tup3", "tup4")]
+            lvars = [i for i, k in enumerate(self.kinds) if k == "trip"]
+            if tvars or lvars:
+                if tvars and (not lvars or rng.random() < 0.7):
+                    a = ["v", rng.choice(tvars), []]
+                    other = rng.choice([["c", (1, 2)], ["c", ()], ["v", rng.choice(tvars), []]])
+                else:
+                    a = ["v", rng.choice(lvars), []]
+                    other = rng.choice([["c", [3]], ["v", rng.choice(lvars), []]])
+                if rng.random() < 0.4:
+                    op, other = "_mul", ["c", rng.choice([2, 0, 1])]
+                else:
+                    op = "_add"
+                args = [other, a] if rng.random() < 0.6 else [a, other]
+                self.kinds.append("any")
+                return dict(k="call", fn=op, args=args, kwargs=[], flag=None, unpack=None)
         f = rng.choice(list(FUNCS))
         npos, kws, kind = FUNCS[f]
         args = [self.arg()[0] for _ in range(npos)]
